@@ -42,8 +42,19 @@ class InvalidCase(Exception):
     """The generated case is outside the property's domain (generator bug)."""
 
 
+class Excluded(Exception):
+    """The case falls into the input class of an open known finding (decided inside the check,
+    where the class can only be recognised after looking at the input, e.g. by parsing it)."""
+
+    def __init__(self, key: str) -> None:
+        super().__init__(key)
+        self.key = key
+
+
 class Rec:
     """Per-case recorder: labels, non-triviality, code-under-test guard."""
+
+    open_keys: set = frozenset()
 
     def __init__(self) -> None:
         self.labels: set[str] = set()
@@ -58,7 +69,7 @@ class Rec:
         """Run code under test: any exception it raises is a violation."""
         try:
             yield
-        except (Violation, InvalidCase):
+        except (Violation, InvalidCase, Excluded):
             raise
         except BaseException as e:  # noqa: BLE001
             if isinstance(e, (KeyboardInterrupt, MemoryError)):
@@ -156,9 +167,14 @@ def run_one(part: Part, case: Any, res: ShardResult, open_keys: set,
                 res.excluded[k] += 1
             return
     rec = Rec()
+    rec.open_keys = open_keys
     res.evals += 1
     try:
         part.check(case, rec)
+    except Excluded as x:
+        res.evals -= 1
+        res.excluded[x.key] += 1
+        return
     except Violation as v:
         n = sum(1 for f in res.failures if f["sig"] == v.clause)
         if n < MAX_FAILS_PER_SIG:
